@@ -49,6 +49,7 @@ func (r *replayer) cleanup() {
 var reNow = regexp.MustCompile(`\btime\.Now\(\)`)
 var reSince = regexp.MustCompile(`\btime\.Since\(`)
 var reListen = regexp.MustCompile(`\bnet\.Listen\(`)
+var reTimeout = regexp.MustCompile(`\bcontext\.WithTimeout\(`)
 
 // writeOverlay prepares the overlay JSON (harness files + clock-redirected sources).
 func (r *replayer) writeOverlay(dir string) (string, error) {
@@ -74,7 +75,7 @@ func (r *replayer) writeOverlay(dir string) (string, error) {
 		if err != nil {
 			return "", err
 		}
-		if !reNow.Match(b) && !reSince.Match(b) && !reListen.Match(b) {
+		if !reNow.Match(b) && !reSince.Match(b) && !reListen.Match(b) && !reTimeout.Match(b) {
 			continue
 		}
 		nb := reNow.ReplaceAll(b, []byte("vpNow()"))
@@ -82,6 +83,8 @@ func (r *replayer) writeOverlay(dir string) (string, error) {
 		// net.Listen goes through the harness, which hands out its stub listener when one is
 		// installed (C28) and calls the real net.Listen otherwise
 		nb = reListen.ReplaceAll(nb, []byte("vpNetListen("))
+		// request contexts go through the harness too (symbolic deadlines, tape-driven natively)
+		nb = reTimeout.ReplaceAll(nb, []byte("vpWithTimeout("))
 		if reNow.Match(b) || reSince.Match(b) {
 			nb = append(nb, []byte("\nvar _ time.Duration // keeps the import used after the clock redirection\n")...)
 		}
